@@ -1262,6 +1262,48 @@ def r16h(ctx, rep, rule="R16h"):
     rep.floor(rule, "#f results of string->number", k, 1)
 
 
+def r16k(ctx, rep, rule="R16k"):
+    from . import tables
+    facts = ctx["facts"]
+    rep.rule(rule, "string->number reads the prefixes a literal may carry: string_number strips leading `#` prefixes with a table "
+             "over the character after the `#` that maps b o d x to the radices 2 8 10 16 (as parse_number's table does, R16c) "
+             "and has arms for e and i; a numeric literal such as #xff then denotes the value string->number gives its spelling.")
+    f = need(rep, rule, facts, "marwood::vm::builtin::number::string_number")
+    if f is None:
+        return
+    strips = [t for bb, t in f.calls() if (callee(t) or "").endswith("<impl str>::strip_prefix")]
+    got = {}
+    for bb, arms, other, t in tables.char_switches(f):
+        for v, tg in arms.items():
+            others = {x for x in arms.values() if x != tg} | {other}
+            seen, order = {tg}, [tg]
+            i = 0
+            while i < len(order) and len(order) < 6:
+                b = order[i]
+                i += 1
+                for st in f.blocks[b]["stmts"]:
+                    c = op_const(st["rv"].get("a")) if st["rv"]["k"] == "use" else None
+                    if c is not None and c.get("ty") == "u32" and "int" in c:
+                        got.setdefault(chr(v), c["int"])
+                    if st["rv"]["k"] == "agg" and (st["rv"].get("adt") or "").endswith("Exactness"):
+                        got.setdefault(chr(v), st["rv"].get("variant"))
+                for x in f.succ[b]:
+                    if x not in seen and x not in others:
+                        seen.add(x)
+                        order.append(x)
+    want = {"b": 2, "o": 8, "d": 10, "x": 16, "e": "Exact", "i": "Inexact"}
+    if not strips or not got:
+        rep.fail(rule, rule + "|string_number|prefix-table", "string_number hands the string to Number's parser without looking for `#` "
+                 "prefixes: (string->number \"#xff\") is #f although the literal #xff is 255", [f.span])
+        return
+    for k_, v in sorted(want.items()):
+        key = "%s|string_number|#%s" % (rule, k_)
+        if got.get(k_) == v:
+            rep.ok(rule, key, "#%s is read as %s" % (k_, v), [f.span])
+        else:
+            rep.fail(rule, key, "string_number reads the prefix #%s as %s, a literal reads it as %s" % (k_, got.get(k_), v), [f.span])
+
+
 def r16g(ctx, rep, rule="R16g"):
     import re as _re2
     facts = ctx["facts"]
